@@ -26,7 +26,8 @@ COQ_TARGETS = ["Properties/C06.vo"]
 THEOREMS = ["C06_follow_terminates", "C06_path_fuel_suffices", "C06_never_panics", "C06_answer_branch_live", "C06_filter_sound", "C06_filter_chain_ok",
             "C06_delegation_progress", "C06_delegation_hostnames_named", "C06_delegation_hostnames_nonempty",
             "C06_header_gate", "C06_gate_sound", "C06_soa_sound", "C06_vchain_chain_ok",
-            "C06_only_validated_is_cached", "C06_only_validated_is_cached_recorded"]
+            "C06_only_validated_is_cached", "C06_only_validated_is_cached_recorded",
+            "C06_only_validated_records_cached"]
 RULE = ("cases: replies to a question at depth 1..7 with delegation depth (match_count) 0..7: CNAME chains from the "
         "question name in shuffled order, off-path / duplicate-owner / looping CNAMEs, records of the asked and of other "
         "types at on-path, off-path and unrelated names, NS sets owned by ancestors at several depths, siblings, children "
